@@ -72,7 +72,7 @@ pub fn create_boolean_constructor(interp: &mut Interpreter) -> Gc<JsObject> {
     interp
         .boolean_prototype
         .borrow_mut()
-        .set_property(ctor_key, JsValue::Object(constructor.clone()));
+        .define_builtin_property(ctor_key, JsValue::Object(constructor.clone()));
 
     constructor
 }
